@@ -79,8 +79,8 @@ meta("C05",
      tested_only="MRTS='auto' plumbing of the scalar vs the profile route and index selections through the public API (oracle on the implementation, both backends); multivariate order value vs order profile (oracle; the pooled sums are C04's synfire theorem)",
      assumptions=[A_FLOAT, A_CY, A_RQ])
 meta("C08",
-     proved="shift and scale (with MRTS, max_tau scaled) transform only the time axis of the ISI, SPIKE, SPIKE-Sync, order profiles and leave directionality values / filter indicators unchanged; time reversal mirrors the ISI, SPIKE (limits exchanged) and SPIKE-Sync profiles, mirrors and negates order/directionality (spec level), integrals unchanged; API level, both backends: ISI and SPIKE distance and SPIKE-Sync value over the whole recording or any sub-interval (moved along), spike-train order and directionality values are unchanged by a shift and by a scaling with k > 0 (MRTS, max_tau scaled along); under time reversal the ISI / SPIKE / SPIKE-Sync values are unchanged and directionality / un-normalised order change sign, the normalised order for every input with a spike; KNOWN FINDING F13 as theorem (order of all-empty input is +1 in both orientations)",
-     tested_only="the same relations for the multivariate forms and with MRTS='auto' (oracle on the implementation, both backends); order value of all-empty input is known finding F13",
+     proved="shift and scale (with MRTS, max_tau scaled) transform only the time axis of the ISI, SPIKE, SPIKE-Sync, order profiles and leave directionality values / filter indicators unchanged; time reversal mirrors the ISI, SPIKE (limits exchanged) and SPIKE-Sync profiles, mirrors and negates order/directionality (spec level), integrals unchanged; API level, both backends: ISI and SPIKE distance and SPIKE-Sync value over the whole recording or any sub-interval (moved along), spike-train order and directionality values are unchanged by a shift and by a scaling with k > 0 (MRTS, max_tau scaled along); under time reversal the ISI / SPIKE / SPIKE-Sync values are unchanged and directionality / un-normalised order change sign, the normalised order for every input with a spike; the same invariances for the multivariate ISI / SPIKE / SPIKE-Sync / order values of every list of trains (shift, scale; mirror over the whole recording); KNOWN FINDING F13 as theorem (order of all-empty input is +1 in both orientations)",
+     tested_only="the same relations for the multivariate PROFILES, for mirrored sub-intervals and with MRTS='auto' (oracle on the implementation, both backends); order value of all-empty input is known finding F13",
      rule="exhaustive <=3-spike pairs on the 9-point grid (sampled 2500) + random pairs, random dyadic shift c and scale k (ties preserved), mirror about the midpoint; nine API results per pair; distinct by canonical encoding",
      assumptions=[A_FLOAT, A_CY, A_RQ])
 meta("C09",
